@@ -847,3 +847,84 @@ Lemma split_pwb (l : list N) : 56 <= lenN l ->
 Proof.
   intros L. repeat rewrite subN_join' by lia. symmetry. apply subN_all. lia.
 Qed.
+
+(* ================= E. soundness ================= *)
+
+(* the data part of an accepted packet *)
+Lemma data_sound req sent data : req <= 511 -> bytes data ->
+  bpc_of req * lenN sent + 4 = lenN data ->
+  blocks_pure req (bpc_of req) data sent = true ->
+  subN data (lenN data - 4) 4 = [204; 204; 204; 204] ->
+  let ws := byte_waves req (length sent) data in
+  data = blocks_bytes req sent ws ++ [204; 204; 204; 204] /\
+  chunks2_le data = pwb_words req sent ws /\
+  parse_blocks req (length sent) (chunks2_le data) = ws /\
+  Forall (fun w => lenN w = req /\ Forall i16_ok w) ws.
+Proof.
+  intros Hreq Hb El Hbl Hmk ws.
+  destruct (blocks_pure_sound req Hreq sent data Hb ltac:(lia) Hbl) as (B1 & B2 & B3 & B4). fold ws in B1, B2, B3.
+  assert (Ed : data = blocks_bytes req sent ws ++ [204; 204; 204; 204]).
+  { rewrite <- B1, <- Hmk. replace (lenN data - 4) with (0 + bpc_of req * lenN sent) by lia.
+    rewrite subN_join' by reflexivity. symmetry. apply subN_all. lia. }
+  assert (Ew : chunks2_le data = pwb_words req sent ws).
+  { rewrite Ed at 1. rewrite <- pwb_words_bytes by assumption.
+    apply chunks_enc_words. apply pwb_words_i16; assumption. }
+  repeat split; try assumption.
+  rewrite Ew. unfold pwb_words. apply parse_blocks_words; [assumption|].
+  rewrite Forall_forall in *. intros w Hw. apply B3. assumption.
+Qed.
+
+Theorem pwb_pure_sound macs l f : bytes l -> pwb_pure macs l = Ok f -> pwb_fields_ok macs f /\ l = pwb_encode f.
+Proof.
+  intros Hb. unfold pwb_pure.
+  destruct (N.ltb_spec (lenN l) 56) as [L56|L56]; [discriminate|].
+  destruct (N.eqb_spec (nthN l 0) 2) as [B0|B0]; cbn [negb]; [|discriminate].
+  destruct (after_of_char (nthN l 1)) as [chip|] eqn:Ech; [|discriminate].
+  destruct (N.eqb_spec (nthN l 2) 0) as [B2|B2]; cbn [negb]; [|discriminate].
+  destruct (trigger_of (nthN l 3)) as [trig|] eqn:Etr; [|discriminate].
+  destruct (mac_known macs (subN l 4 6)) eqn:Emac; cbn [negb]; [|discriminate].
+  destruct (list_eqb (subN l 18 2) [0; 0]) eqn:Ez; cbn [negb]; [|discriminate]. apply leqb_eq in Ez.
+  destruct (N.ltb_spec 511 (le_val (subN l 20 2))) as [Hlast|Hlast]; [discriminate|].
+  destruct (N.ltb_spec 511 (le_val (subN l 22 2))) as [Hreq|Hreq]; [discriminate|].
+  destruct (N.leb_spec 128 (nthN l 33)) as [H33|H33]; [discriminate|].
+  destruct (N.leb_spec 128 (nthN l 43)) as [H43|H43]; [discriminate|].
+  set (req := le_val (subN l 22 2)) in *.
+  set (n1 := le_val (subN l 24 10)). set (n2 := le_val (subN l 34 10)).
+  set (data := dropN 52 l).
+  destruct (N.eqb_spec (bpc_of req * lenN (mask_chan_list n1) + 4) (lenN data)) as [El|El]; cbn [negb]; [|discriminate].
+  destruct (blocks_pure req (bpc_of req) data (mask_chan_list n1)) eqn:Ebl; cbn [negb]; [|discriminate].
+  destruct (list_eqb (subN data (lenN data - 4) 4) [204; 204; 204; 204]) eqn:Emk; cbn [negb]; [|discriminate].
+  apply leqb_eq in Emk.
+  intros [= <-].
+  assert (Bd : bytes data) by (apply bytes_dropN; assumption).
+  destruct (data_sound req (mask_chan_list n1) data Hreq Bd El Ebl Emk) as (Ed & Ew & Ep & Ews).
+  apply after_of_char_spec in Ech. destruct Ech as [Ech Hchip].
+  apply trigger_of_spec in Etr. destruct Etr as [Etr Htrig].
+  assert (N1 : n1 < 2 ^ 79) by (apply le10_top; [assumption|lia|exact H33]).
+  assert (N2 : n2 < 2 ^ 79) by (apply le10_top; [assumption|lia|exact H43]).
+  assert (Ets : le_val (subN l 12 8) = le_val (subN l 12 6)).
+  { change 8 with (6 + 2). rewrite subN_split. change (12 + 6) with 18. rewrite Ez.
+    apply le_val_app_zeros. repeat constructor. }
+  split.
+  - unfold pwb_fields_ok, pwb_waves.
+    cbn [p_chip p_trig p_mac p_delay p_ts p_last p_req p_sent p_over p_counter p_fifo p_wdepth p_rdepth p_data].
+    rewrite Ep, Ets.
+    assert (Lm : lenN (subN l 4 6) = 6) by (apply subN_length; lia).
+    repeat split; try assumption; try apply mask_chan_list_ok; try (apply nthN_byte; assumption).
+    + unfold lenN in Lm. lia.
+    + apply bytes_subN. assumption.
+    + change (2^16) with (256^2). apply le_subN_bound; [assumption|lia].
+    + change (2^48) with (256^6). apply le_subN_bound; [assumption|lia].
+    + change (2^32) with (256^4). apply le_subN_bound; [assumption|lia].
+    + change (2^16) with (256^2). apply le_subN_bound; [assumption|lia].
+  - unfold pwb_encode, pwb_waves.
+    cbn [p_chip p_trig p_mac p_delay p_ts p_last p_req p_sent p_over p_counter p_fifo p_wdepth p_rdepth p_data].
+    rewrite Ep, Ets. rewrite !chans_mask_list by assumption.
+    rewrite (split_pwb l L56) at 1.
+    rewrite !nthN_subN by lia. rewrite B0, Ech, B2, Etr, Ez.
+    unfold n1, n2, req.
+    rewrite (le_subN_enc l 10 2 2%nat), (le_subN_enc l 12 6 6%nat), (le_subN_enc l 20 2 2%nat),
+      (le_subN_enc l 22 2 2%nat), (le_subN_enc l 24 10 10%nat), (le_subN_enc l 34 10 10%nat),
+      (le_subN_enc l 44 4 4%nat), (le_subN_enc l 48 2 2%nat) by (first [assumption | lia | reflexivity]).
+    rewrite <- (dropN_subN l 52). fold data. fold req. fold n1. rewrite <- Ed. reflexivity.
+Qed.
